@@ -3,6 +3,7 @@ package bitswap
 import (
 	"context"
 	"crypto/sha256"
+	"errors"
 	"fmt"
 	"sync"
 
@@ -101,7 +102,9 @@ func fetch(
 		return fmt.Errorf("requesting Bitswap blocks: %w", err)
 	}
 
+	received := make(map[cid.Cid]struct{}, len(cids))
 	for bitswapBlk := range blkCh { // GetBlocks closes blkCh on ctx cancellation
+		received[bitswapBlk.Cid()] = struct{}{}
 		// NOTE: notification for duplicates is on purpose and to cover a flaky case
 		// It's harmless in practice to do additional notifications in case of duplicates
 		if err := exchg.NotifyNewBlocks(ctx, bitswapBlk); err != nil {
@@ -150,8 +153,21 @@ func fetch(
 		}
 	}
 
-	return ctx.Err()
+	if err := ctx.Err(); err != nil {
+		return err
+	}
+	// the channel is also closed when the session (or the exchange) behind the fetcher was shut down, e.g.
+	// after Getter.Stop: the request context is alive then, but the Blocks were not fetched
+	for _, c := range cids {
+		if _, ok := received[c]; !ok {
+			return errFetcherClosed
+		}
+	}
+	return nil
 }
+
+// errFetcherClosed is returned when the fetcher stopped delivering before all the requested Blocks arrived.
+var errFetcherClosed = errors.New("shwap/bitswap: fetcher was closed before all blocks were fetched")
 
 // unmarshal unmarshalls the Shwap Container data into a Block with the given UnmarshalFn
 func unmarshal(unmarshalFn UnmarshalFn, data []byte) error {
